@@ -3,6 +3,7 @@
    ones with the same label, and every key type the client offers is one the server certifies. *)
 From Coq Require Import String.
 From KM Require Import Base.Bytes Model.KeyStrength Model.Client Proofs.Client Model.ClientEnv Proofs.ClientEnv.
+From KM Require Import Model.ClientLabel Proofs.ClientLabel Model.ServerKeys Proofs.ServerKeys.
 
 (* taint theorem over the client's request builders: whatever the signers hold, every atom of
    every request of a setupCerts run (with or without a one-time-code step) is text, the password
@@ -58,6 +59,44 @@ Theorem c19_agent_replace : forall n a, NoDup (map e_blob a) -> e_cert n = true 
   NoDup (map e_blob a').
 Proof. exact agent_replace. Qed.
 Print Assumptions c19_agent_replace.
+
+(* LABELS and REPEATED runs.  The client is given a label -- ANY byte string: with spaces, tabs, line ends, control
+   bytes, multi-byte characters, empty, of any length -- and installs a certificate under it once per run.  After
+   k >= 1 installations under one label (blobs ++ [last], any blobs) into any agent with unique blobs: exactly one
+   certificate is under the label as the agent reports it, the LAST one, and its comment is the label the client
+   was given; whatever was there before, is not a certificate under the label and has none of the installed blobs
+   is still there; nothing else appeared. *)
+Theorem c19_agent_replace_repeated : forall label blobs last a, NoDup (map e_blob a) ->
+  let n := mkEntry label last true in
+  let a' := install_many label (blobs ++ [last]) a in
+  under_label label a' = [n] /\
+  (forall e, In e a -> is_dup label e = false -> ~ In (e_blob e) (blobs ++ [last]) -> In e a') /\
+  (forall e, In e a' -> e = n \/ (In e a /\ is_dup label e = false)) /\
+  NoDup (map e_blob a').
+Proof. exact install_many_replaces. Qed.
+Print Assumptions c19_agent_replace_repeated.
+
+(* one installation under a label is the replacement of c19_agent_replace for the entry (label, blob) *)
+Theorem c19_install_is_upsert : forall label blob a, install_cert label blob a = upsert (mkEntry label blob true) a.
+Proof. exact install_cert_upsert. Qed.
+Print Assumptions c19_install_is_upsert.
+
+(* labels are compared as byte strings: an installation under one label leaves the certificates under every OTHER
+   label (a prefix of it, the same letters in another case, the same with a trailing space ...) exactly as they
+   were -- none removed (unless it has the very blob that is installed), none added *)
+Theorem c19_other_labels_untouched : forall label label' blob a, NoDup (map e_blob a) -> label <> label' ->
+  (forall e, In e a -> is_dup label' e = true -> e_blob e <> blob -> In e (install_cert label blob a)) /\
+  (forall e, In e (install_cert label blob a) -> is_dup label' e = true -> In e a).
+Proof. exact install_other_label. Qed.
+Print Assumptions c19_other_labels_untouched.
+
+(* a client that stores a NORMALISED comment (runs of white space / control bytes folded into one underscore) but
+   looks for the raw label never finds what it installed: two runs leave two certificates, none under the label *)
+Theorem c19_normalised_comment_refuted : exists label b1 b2,
+  let a' := install_many_with normalised_comment label [b1; b2] [] in
+  length (certs_of a') = 2%nat /\ under_label label a' = [].
+Proof. exists ex_label, [1%N], [2%N]. exact normalised_comment_accumulates. Qed.
+Print Assumptions c19_normalised_comment_refuted.
 
 (* the same against an agent that may refuse ANY of the calls (List, the k-th Remove for every k,
    Add; a refused call has no effect): if the installation reports success, exactly one certificate
@@ -152,6 +191,37 @@ Theorem c19_offered_accepted_spec : forall alts rsa_bits, offered_all_accepted a
 Proof. intros alts rsa_bits H p t. apply (offered_all_accepted_spec alts rsa_bits H p t), all_prefs_complete. Qed.
 Print Assumptions c19_offered_accepted_spec.
 
+(* the same over the server's KEY MATERIAL: for every CA key configuration with which the daemon starts -- main CA
+   RSA / P-256 / P-384 / P-521 stored as PKCS#8, PKCS#1 / SEC1 or OpenSSH private key file, no Ed25519 CA or one
+   stored as PKCS#8 or OpenSSH file -- every SSH key type the client offers is CERTIFIED (the always-offered Ed25519
+   key whenever an Ed25519 CA is configured; without one the answer is "no such CA", which the client takes as
+   "optional certificate not available"), and every X.509 key type is certified *)
+Theorem c19_offered_certified_any_ca : forall alts rsa_bits, offered_all_accepted alts rsa_bits = true ->
+  forall k s, load_signers k = Some s -> forall p t,
+    (In t (offered_ssh p) -> t <> KEd25519 \/ sk_ed k <> None -> ssh_answer_of alts rsa_bits s t = SshCertified) /\
+    (In t (offered_ssh p) -> t = KEd25519 -> sk_ed k = None -> ssh_answer_of alts rsa_bits s t = SshNoSuchCA) /\
+    (In t (offered_x509 p) -> x509_certified rsa_bits s t = true).
+Proof. exact offered_certified_any_ca. Qed.
+Print Assumptions c19_offered_certified_any_ca.
+
+(* the configurations with which the daemon starts are exactly the 12 x 3 ones the harness enumerates *)
+Theorem c19_server_keys_enumerated : forall k, server_loads k = true <->
+  In (sk_main k) all_main_files /\ (sk_ed k = None \/ exists f, sk_ed k = Some f /\ In f all_ed_files).
+Proof. exact server_loads_enumerated. Qed.
+Print Assumptions c19_server_keys_enumerated.
+
+(* a constructor of the certificate signer that switches on the value forms of the key types (what the PKCS#8
+   loader yields) refuses the pointer the OpenSSH loader yields for an Ed25519 CA: the ssh-ed25519 key every
+   client offers is not certified although an Ed25519 CA is configured *)
+Theorem c19_value_form_signer_refuted : forall alts rsa_bits, offered_all_accepted alts rsa_bits = true ->
+  exists k s p t, load_signers k = Some s /\ sk_ed k <> None /\ In t (offered_ssh p) /\
+    ssh_answer_with new_signer_value_forms alts rsa_bits s t = SshRefused.
+Proof.
+  intros alts rsa_bits H. destruct (value_form_signer_refuses alts rsa_bits H) as (s & L & I & R).
+  exists ex_openssh_ed, s, PrefRSA, KEd25519. split; [exact L|]. split; [discriminate|]. split; [exact I|exact R].
+Qed.
+Print Assumptions c19_value_form_signer_refuted.
+
 (* before the fix the server's pattern lacked ecdsa-sha2-nistp384: preference p384 was refused *)
 Theorem c19_old_p384_refuted : exists p t, In t (offered_ssh p) /\ server_accepts_ssh old_alternatives 3072 t = false.
 Proof. exists PrefP384, KP384. destruct old_p384_refused as [A B]. split; [exact B|exact A]. Qed.
@@ -183,3 +253,15 @@ Proof. vm_compute. split; reflexivity. Qed.
 Example c19_ex_wire_web : map req_code (setup_wire_web make_signers) =
   [(0, []); (6, [1]); (2, [20]); (3, [20]); (4, [21]); (4, [22])]%N.
 Proof. vm_compute. reflexivity. Qed.
+
+Example c19_ex_repeated :
+  let other := mkEntry [107; 32] [12] true in      (* "k " : the label with a trailing space is another label *)
+  under_label [107] (install_many [107] [[1]; [2]; [3]] [other]) = [mkEntry [107] [3] true] /\
+  under_label [107; 32] (install_many [107] [[1]; [2]; [3]] [other]) = [other].
+Proof. vm_compute. split; reflexivity. Qed.
+
+Example c19_ex_openssh_ed_ca :
+  ssh_answer_of ["ssh-ed25519"%string] 3072 (GoPtrRSA, Some GoEd25519Ptr) KEd25519 = SshCertified /\
+  load_signers (mkServerKeys (mkCaFile CaP521 FmtOpenSSH) (Some (mkCaFile CaEd25519 FmtOpenSSH))) = Some (GoPtrECDSA, Some GoEd25519Ptr) /\
+  load_signers (mkServerKeys (mkCaFile CaEd25519 FmtPKCS8) None) = None.
+Proof. vm_compute. repeat split; reflexivity. Qed.
